@@ -117,7 +117,7 @@ Theorem C02_analysis_ok_on_structured_trails : forall db tr conf r,
   analyze db tr conf = Some r ->
   tnd tr -> sortedL tr -> justL db tr ->
   (forall c, nth_error db (N.to_nat conf) = Some c -> falsified tr (cl_lits c) = true) ->
-  analysis_ok db tr conf r = true /\ go_facts tr 0 r.
+  analysis_ok db tr conf r = true /\ go_facts tr (top_level tr) 0 r.
 Proof. exact analyze_ok. Qed.
 
 (* ---- THE solver model as a whole never reports Unsolvable for a problem that has a
@@ -133,3 +133,22 @@ Theorem C02_solver_model_no_false_unsat : forall U P, WF U -> forall A a_ge a_co
   solve U P a_ge a_conflict fuel efuel a0 order = (OUnsat core, st) -> s_ok st = true ->
   forall Sel, ~ valid U P Sel [].
 Proof. exact solve_no_false_unsat. Qed.
+
+(* ---- and those side conditions hold on EVERY run of the model (Cdcl/SolverLevels.v): the
+   level structure of the trail (levels sorted, every entry justified by its clause or opening
+   its level, the root at the bottom, assertions in force) is an invariant of the whole loop
+   nest -- decisions, propagation, conflict analysis with backjump, rejected soft requirements,
+   restarts after lazily added clauses -- so analysis_ok holds at every conflict analysis and
+   the side condition of the conflict report holds at the end. ---- *)
+From Resolvo Require Import Cdcl.SolverLevels.
+Theorem C02_solver_model_side_conditions_hold : forall U P, WF U -> forall A a_ge a_conflict fuel efuel (a0 : A) order o st,
+  solve U P a_ge a_conflict fuel efuel a0 order = (o, st) -> s_ok st = true.
+Proof. exact solve_ok. Qed.
+
+(* ---- hence, with no side condition left: the solver model never answers Unsolvable for a
+   problem that has a valid selection, for every well-formed provider, problem, fuel,
+   activity function and completion order. ---- *)
+Theorem C02_solver_model_never_false_unsat : forall U P, WF U -> forall A a_ge a_conflict fuel efuel (a0 : A) order core st,
+  solve U P a_ge a_conflict fuel efuel a0 order = (OUnsat core, st) ->
+  forall Sel, ~ valid U P Sel [].
+Proof. exact solve_never_false_unsat. Qed.
